@@ -46,6 +46,7 @@ func (r *run) newTimer(fn Value, periodic bool) (*timerState, *Chan) {
 				r.call(ts.fn, nil)
 			} else if len(ch.buf) < ch.cap {
 				ch.buf = append(ch.buf, mkTime(r.now()))
+				ch.sentN++
 			}
 			r.yieldOn("timer fired", []any{ts, ch}, nil)
 		}
